@@ -2,7 +2,7 @@
 # Development tool: confirm a seeded change and run checks against it.
 # usage: tools/seedtest.sh <ID> <X> <check-id>...     (seed in /tmp/seed_out/<ID>/<X>, worktree /tmp/seed/<ID>)
 ID=$1; X=$2; shift 2
-S=/tmp/seed_out/$ID/$X; W=/tmp/seed/$ID
+S=/tmp/seed_out/$ID/$X; W=${SEEDW:-/tmp/seed}/$ID
 set -u
 cd $W || exit 9
 git checkout -q -- . && git clean -fdq
